@@ -119,6 +119,19 @@ DESC = {
     'C19-4': ('pwm setter accepts values within 1e-12 above 1', 'duty cycle 1.0000000000000002 assigned directly'),
     'C20-3': ('the last worm gear overwrites the self-locking flag', 'two worm pairs, the earlier self-locking, the later not'),
     'C20-4': ('chain walk follows drives only while the follower points back', 'an element given a second master'),
+    # ---- third round
+    'C02-5': ('motor characteristic clamps the speed ratio at zero (stall clamp)', 'rotor turning against the supply direction (load above stall on a free train)'),
+    'C02-6': ('loads evaluated in a first pass, reflected upstream in a second pass that overwrites loaded elements', 'an external load on an intermediate element'),
+    'C03-5': ('integration step derived from the raw difference of the last two instants', 'first step of a continuation whose dt is written in another unit'),
+    'C03-6': ('acceleration of the last element cached in the Solver object', 'a run continued by a different Solver object'),
+    'C12-5': ('extra "held at rest" lock branch keyed on the previous motor torque', 'self-locking drive at rest under a load above stall; reset; rerun'),
+    'C12-6': ('Solver caches powertrain.time and powertrain.elements', 'time-dependent load; reset; rerun with the same Solver'),
+    'C13-5': ('lock check skipped while motor.torque is None (first instant of a first run)', 'initial speed opposing the duty cycle, or pwm 0 with non-zero initial speed'),
+    'C13-6': ('lock decided after motor control (duty cycle just commanded instead of the one in force)', 'control reversing sign at the instant the back-driven speed first appears'),
+    'C17-5': ('entry check of the stop condition placed after update_time', 'run() entered with the stop condition already true'),
+    'C17-6': ('Solver.__init__ re-declares the motor pwm history as an empty list', 'a second Solver bound to an already simulated powertrain'),
+    'C18-5': ('clamp of the snapshot target into the recorded range removed', 'snapshot at the last instant written in another time unit'),
+    'C18-6': ('snapshot returns the frame rounded to 6 decimals when print_data is on', 'print_data=True (the default)'),
 }
 
 
